@@ -834,6 +834,16 @@ type instr struct {
 	keepImport map[string]bool
 }
 
+// isPackage reports whether id denotes an imported package at this place (and
+// not a variable or parameter that shadows it).
+func (in *instr) isPackage(id *ast.Ident) bool {
+	if info := typeInfo[in.astFile]; info != nil {
+		_, ok := info.Uses[id].(*types.PkgName)
+		return ok
+	}
+	return id.Obj == nil
+}
+
 // importName returns the name under which this file imports path ("" if it does not).
 func (in *instr) importName(path string) string {
 	for _, im := range in.astFile.Imports {
@@ -980,18 +990,27 @@ func (in *instr) walk(n ast.Node, fn string) {
 	}
 	ast.Inspect(n, func(x ast.Node) bool {
 		switch t := x.(type) {
-		case *ast.CallExpr:
-			// time.Sleep(d) -> simrt.Sleep(d), runtime.Gosched() -> simrt.Gosched():
-			// a task that polls gives the token away instead of burning steps or
-			// real time
-			if sel, ok := t.Fun.(*ast.SelectorExpr); ok {
-				if id, ok := sel.X.(*ast.Ident); ok && id.Obj == nil {
-					if (id.Name == in.importName("time") && sel.Sel.Name == "Sleep") || (id.Name == in.importName("runtime") && sel.Sel.Name == "Gosched") {
-						in.replace(id.Pos(), len(id.Name), "simrt__")
-						in.keepImport[id.Name+"."+sel.Sel.Name] = true
-					}
+		case *ast.ForStmt:
+			// `for !done.Load() {}`: a loop without statements has no yield of its
+			// own and would spin with the token for ever
+			if t.Body != nil && len(t.Body.List) == 0 {
+				in.yieldAt(t.Body.Lbrace+1, "stmt", fn)
+			}
+		case *ast.RangeStmt:
+			if t.Body != nil && len(t.Body.List) == 0 {
+				in.yieldAt(t.Body.Lbrace+1, "stmt", fn)
+			}
+		case *ast.SelectorExpr:
+			// time.Sleep -> simrt.Sleep, runtime.Gosched -> simrt.Gosched (called
+			// or used as a value): a task that polls gives the token away instead
+			// of burning steps or real time
+			if id, ok := t.X.(*ast.Ident); ok && in.isPackage(id) {
+				if (id.Name == in.importName("time") && t.Sel.Name == "Sleep") || (id.Name == in.importName("runtime") && t.Sel.Name == "Gosched") {
+					in.replace(id.Pos(), len(id.Name), "simrt__")
+					in.keepImport[id.Name+"."+t.Sel.Name] = true
 				}
 			}
+		case *ast.CallExpr:
 			// sync.OnceValue(f), sync.OnceValues(f), sync.OnceFunc(f): whatever f
 			// builds lives as long as the returned function value, which cannot be
 			// walked. f announces itself when it runs (simrt__.LazyInit); if that
@@ -1100,6 +1119,7 @@ func (in *instr) goEager(g *ast.GoStmt) bool {
 		}
 	}
 	bad := false
+	scope := pkg.Scope().Innermost(g.Pos())
 	qual := func(p *types.Package) string {
 		if p == pkg {
 			return ""
@@ -1110,7 +1130,15 @@ func (in *instr) goEager(g *ast.GoStmt) bool {
 			return p.Name()
 		}
 		if n == "" {
-			return p.Name()
+			n = p.Name()
+		}
+		// a parameter or variable of that name may shadow the package here
+		if scope != nil {
+			if _, obj := scope.LookupParent(n, g.Pos()); obj != nil {
+				if pn, isPkg := obj.(*types.PkgName); !isPkg || pn.Imported() != p {
+					bad = true
+				}
+			}
 		}
 		return n
 	}
@@ -1297,8 +1325,21 @@ func Captured(name string, ptr any) {
 	if sealed {
 		return
 	}
+	// a function that runs many times during initialisation (building a table,
+	// say) announces the same local again and again; those are per-call
+	// variables of calls that are over. The first few instances are enough to
+	// see state that a closure keeps for the life of the process.
+	if capturedCount == nil {
+		capturedCount = map[string]int{}
+	}
+	capturedCount[name]++
+	if capturedCount[name] > 4 {
+		return
+	}
 	globals = append(globals, Global{name + " (local variable captured by a closure built during package initialisation)", ptr})
 }
+
+var capturedCount map[string]int
 
 var sealed bool
 
